@@ -643,7 +643,7 @@ func (x *Exec) applyContract(fr *Frame, st *State, cc *ssa.CallCommon, callee *s
 	k(st, resultVal(rs, sig))
 }
 
-var execGhostRe = regexp.MustCompile(`\b(offered|offeredAt|yielded|yieldedAt|yieldedErr|stopped|visited|copyErr|copied|status|header|bodyLen|bodyCopied|ncalls|ncallsOf)\(`)
+var execGhostRe = regexp.MustCompile(`\b(offered|offeredAt|yielded|yieldedAt|yieldedErr|stopped|visited|copyErr|copied|status|header|bodyLen|bodyCopied|ncalls|ncallsOf|ncallsAfter|closed)\(`)
 
 // modifiesMatch: does the modifies item m ("pkg.Type", "pkg.Type.field",
 // "Type.field") cover heap component key k ("F_S_pkg_Type__field")?
